@@ -1000,3 +1000,555 @@ def scaling(w, cfg):
         w.note(calls=[i[0] for i in tape.items])
     finally:
         env.restore()
+
+
+# =========================================================================== mode B: the real solvers on real property data
+#
+# Bounded stand-in (never counted as proved).  Input family (deterministic grids, quantifier of the property):
+#   near-ideal families  ALC = C1-C4 alcohols, HC = hexane/heptane/octane/benzene/toluene; every subset of 2, 3 and all
+#   members; compositions with every mole fraction >= 0.02; T 280-450 K, P 2e4-1e6 Pa, V in (0.02, 0.98);
+#   H/S between the all-liquid and all-vapour values; single chemicals; optional small amounts of non-condensable gas (N2)
+#   and of a non-volatile solute (glucose); ideal package: any volatile chemicals incl. water with organics.
+# Tolerances = the solver's stated resolutions (VLE.T_tol 5e-8 K, P_tol 1 Pa, V_tol 1e-6, K_tol 1e-6) with the slack noted.
+
+ALC = ('Methanol', 'Ethanol', 'Propanol', 'Butanol')
+HC = ('Hexane', 'Heptane', 'Octane', 'Benzene', 'Toluene')
+IDEAL_SETS = (('Water', 'Ethanol'), ('Water', 'Methanol', 'Octane'), ('Water', 'Ethanol', 'Propanol', 'Hexane', 'Toluene'),
+              ('Ethanol', 'Benzene'), ('Water', 'Butanol', 'Heptane'))
+_b_chem = {}
+_b_thermo = {}
+
+H_REL_TOL = 1e-6          # "reproduced": |H - H_spec| <= 1e-6 * max(|H_spec|, H_all-vapour - H_all-liquid); same for S
+V_TOL = 2e-6              # 2 x VLE.V_tol
+T_RES = 1e-7              # 2 x VLE.T_tol [K]
+P_RES = 1.0               # VLE.P_tol [Pa]
+FUG_REL_TOL = 1e-5        # iso-fugacity: |f_l / f_g - 1| (10 x VLE.K_tol)
+RAOULT_TOL = 1e-6         # ideal package vs independent Rachford-Rice: |v_i - v_i_ref| / F
+SCALE_TOL = 1e-7          # |product(k feed) / k - product(feed)| / F
+
+
+def b_chem(ID):
+    c = _b_chem.get(ID)
+    if c is None:
+        if ID == 'N2':
+            c = tmo.Chemical('N2', phase='g')
+        elif ID == 'Glucose':
+            c = tmo.Chemical('Glucose', phase='l')
+            c.N_solutes = 1
+        else:
+            c = tmo.Chemical(ID)
+        _b_chem[ID] = c
+    return c
+
+
+def b_thermo(IDs, ideal=False):
+    key = (tuple(IDs), ideal)
+    t = _b_thermo.get(key)
+    if t is None:
+        if ideal:
+            t = b_thermo(IDs).ideal()
+        else:
+            cs = tmo.Chemicals([b_chem(i) for i in IDs])
+            cs.compile()
+            t = tmo.Thermo(cs)
+        _b_thermo[key] = t
+    return t
+
+
+for _ID in ALC + HC + ('Water', 'N2', 'Glucose'):
+    b_chem(_ID)          # created before forking: the worker processes share them
+
+
+def b_mixtures(tier):
+    out = []
+    for fam in (ALC, HC):
+        sizes = sorted({2, 3, len(fam)})
+        for n in sizes:
+            for sub in itertools.combinations(fam, n):
+                out.append(sub)
+    if tier == 'quick':     # every pair of neighbours + the wide-boiling pairs + one ternary per family + both full families
+        keep = {('Methanol', 'Ethanol'), ('Ethanol', 'Propanol'), ('Methanol', 'Butanol'), ('Methanol', 'Ethanol', 'Propanol'), ALC,
+                ('Hexane', 'Heptane'), ('Hexane', 'Benzene'), ('Octane', 'Benzene'), ('Benzene', 'Toluene'), ('Hexane', 'Octane', 'Toluene'), HC}
+        out = [m for m in out if m in keep]
+    return out
+
+
+def b_compositions(n, tier):
+    """Deterministic compositions with every mole fraction >= 0.02."""
+    out = [[1. / n] * n]
+    for i in range(n):
+        z = [0.02] * n; z[i] = 1. - 0.02 * (n - 1); out.append(z)          # corners of the admissible simplex
+    for i in range(n):
+        z = [0.5 / (n - 1)] * n; z[i] = 0.5; out.append(z)
+    if tier == 'quick':
+        out = [out[0], out[1], out[n], out[n + 1]] if n > 2 else out[:3]
+    seen = []
+    for z in out:
+        if z not in seen: seen.append(z)
+    return seen
+
+
+def b_stream(IDs, z, F=100., phase='l', ideal=False, extras=None, T=298.15, P=101325.):
+    th = b_thermo(tuple(IDs) + tuple(e for e in (extras or {})), ideal)
+    flows = {phase: [(i, F * x) for i, x in zip(IDs, z)]}
+    s = tmo.MultiStream(None, T=T, P=P, thermo=th, **flows)
+    for ID, frac in (extras or {}).items():
+        s.imol['g' if ID == 'N2' else 'l', ID] = F * frac
+    return s
+
+
+_warmed = False
+
+
+def b_warm():
+    """
+    Once per worker process: compile the numba kernels of the flash (both activity models, 2 and N chemicals, every
+    specification pair).  numba's on-disk cache index in /repo/.../__pycache__ is shared with concurrently running checks and
+    saving to it can fail with `ReferenceError: underlying object has vanished` on the first compilation in a process; the
+    compiled kernel is kept in memory, so the call is simply repeated (environment, not behaviour of the code under check).
+    """
+    global _warmed
+    if _warmed:
+        return
+    _warmed = True
+    for ideal in (False, True):
+        for IDs, z in ((('Methanol', 'Ethanol', 'Propanol'), [0.3, 0.3, 0.4]), (('Methanol', 'Ethanol'), [0.5, 0.5])):
+            for attempt in range(6):
+                try:
+                    s = b_stream(IDs, z, ideal=ideal)
+                    s.vle(T=350., P=101325.); s.vle(V=0.5, P=101325.); s.vle(V=0.5, T=350.)
+                    H = s.H; S = s.S
+                    s.vle(H=H, P=101325.); s.vle(S=S, P=101325.); s.vle(H=H, T=s.T); s.vle(S=S, T=s.T)
+                    break
+                except ReferenceError:
+                    continue
+                except Exception:
+                    break
+
+
+def flash(s, **kw):
+    try:
+        s.vle(**kw)
+    except ReferenceError:      # see b_warm
+        s.vle(**kw)
+
+
+def ref_bubble_dew_P(IDs, z, T):
+    """
+    Independent reference (written here, numpy only): modified Raoult's law with the package's activity coefficients,
+    ideal vapour, no Poynting correction:  P_bubble = sum z_i gamma_i(z) Psat_i ;  P_dew = 1 / sum z_i / (gamma_i(x) Psat_i)
+    with x_i = z_i P_dew / (gamma_i(x) Psat_i) iterated to a fixed point.
+    """
+    th = b_thermo(IDs)
+    chems = [b_chem(i) for i in IDs]
+    gamma = th.Gamma(chems)
+    Psat = np.array([c.Psat(T) for c in chems])
+    z = np.asarray(z, float)
+    Pb = float((z * gamma(z, T) * Psat).sum())
+    x = z.copy()
+    Pd = None
+    for _ in range(200):
+        g = gamma(x, T)
+        Pd_new = 1. / (z / (g * Psat)).sum()
+        x_new = z * Pd_new / (g * Psat)
+        x_new = x_new / x_new.sum()
+        if Pd is not None and abs(Pd_new - Pd) <= 1e-13 * Pd_new and np.abs(x_new - x).max() < 1e-14:
+            Pd = Pd_new; break
+        Pd = Pd_new
+        x = 0.5 * x + 0.5 * x_new
+    return Pb, float(Pd)
+
+
+def fugacity_mismatch(s, IDs):
+    """max_i |f_i,liquid / f_i,vapour - 1| at the result (LiquidFugacities / GasFugacities of the package)."""
+    chems = [b_chem(i) for i in IDs]
+    l = s.imol['l', IDs]; g = s.imol['g', IDs]
+    x = l / s.imol['l'].sum(); y = g / s.imol['g'].sum()      # true mole fractions of each phase
+    fl = eq.LiquidFugacities(chems, s.thermo)(x / x.sum(), s.T, s.P) * x.sum()
+    fg = eq.GasFugacities(chems, s.thermo)(y / y.sum(), s.T, s.P) * y.sum()
+    return float(np.abs(fl / fg - 1.).max())
+
+
+def totals_of(s):
+    return s.imol['l'] + s.imol['g'] if False else (np.asarray(s.imol['l'].to_array()) + np.asarray(s.imol['g'].to_array()))
+
+
+T_GRID_QUICK = (300., 350., 400., 440.)
+T_GRID_THOROUGH = (285., 300., 325., 350., 375., 400., 425., 445.)
+THETAS = (0.05, 0.3, 0.6, 0.95)
+
+
+def b_base_configs(tier):
+    out = []
+    for IDs in b_mixtures(tier):
+        for ci, z in enumerate(b_compositions(len(IDs), tier)):
+            for T in (T_GRID_QUICK if tier == 'quick' else T_GRID_THOROUGH):
+                out.append({'name': f"{'+'.join(IDs)};z{ci};T={T:g}", 'IDs': list(IDs), 'z': z, 'T': T})
+    return out
+
+
+# --------------------------------------------------------------------------- B: T, P specified — phase boundary and iso-fugacity
+
+@group('C04/B_TP', configs=b_base_configs, mode='B',
+       functions=[_VLE + '__call__', _VLE + 'set_thermal_condition', _VLE + '_solve_v', _VLE + '_solve_v_fixed_point',
+                  'thermosteam.equilibrium.vle:xVlogK_iter', 'thermosteam.equilibrium.vle:xVlogK_iter_2n'],
+       notes='real solvers; near-ideal families (C1-C4 alcohols; hexane/heptane/octane/benzene/toluene), subsets of 2, 3, all; '
+             'compositions with x_i >= 0.02; T grid 285-445 K; P at 0.5 P_dew, P_dew(1 -+ 1e-4), P_dew + theta (P_bubble - P_dew) for '
+             'theta in {0.05, 0.3, 0.6, 0.95}, P_bubble (1 +- 1e-4), 2 P_bubble, kept when 2e4 <= P <= 1e6; bubble/dew reference = '
+             'independent modified-Raoult computation in the contract; iso-fugacity |f_l/f_g - 1| <= 1e-5')
+def B_TP(w, cfg):
+    b_warm()
+    IDs = cfg['IDs']; z = np.array(cfg['z']); T = cfg['T']
+    Pb, Pd = ref_bubble_dew_P(IDs, z, T)
+    w.ensure('reference: dew pressure <= bubble pressure', Pd <= Pb * (1 + 1e-12), Pb=Pb, Pd=Pd)
+    pts = [('0.5*dew', 0.5 * Pd), ('dew-1e-4', Pd * (1 - 1e-4))] + [(f'dew+{t:g}*span', Pd + t * (Pb - Pd)) for t in THETAS] \
+        + [('bubble+1e-4', Pb * (1 + 1e-4)), ('2*bubble', 2 * Pb)]
+    reuse = None
+    n_run = 0
+    for label, P in pts:
+        if not 2e4 <= P <= 1e6:
+            continue
+        # alternate between a fresh all-liquid feed, a fresh all-vapour feed and re-using the previous result (history of the VLE object)
+        mode = ('liquid', 'vapour', 'reuse')[n_run % 3]
+        n_run += 1
+        if mode == 'reuse' and reuse is not None:
+            s = reuse
+        else:
+            s = b_stream(IDs, z, phase='g' if mode == 'vapour' else 'l')
+        before = totals_of(s)
+        try:
+            flash(s, T=T, P=P)
+        except NOT_NORMAL as e:
+            w.note(**{f'skipped {label}': repr(e)})
+            continue
+        reuse = s
+        tag = f'P={label}: '
+        w.ensure(tag + 'T, P after the flash = specified T, P', s.T == T and s.P == P, T=s.T, P=s.P)
+        w.ensure(tag + 'frame: total of every chemical unchanged', bool(np.allclose(totals_of(s), before, rtol=1e-12, atol=0.)))
+        V = s.vapor_fraction
+        if label in ('bubble+1e-4', '2*bubble'):
+            w.ensure(tag + 'at or above the bubble pressure: all liquid', V == 0., V=V, P=P, P_bubble=Pb)
+        elif label in ('0.5*dew', 'dew-1e-4'):
+            w.ensure(tag + 'at or below the dew pressure: all vapour', V == 1., V=V, P=P, P_dew=Pd)
+        else:
+            two = 0. < V < 1.
+            w.ensure(tag + 'between dew and bubble pressure: two phases', two, V=V, P=P, P_dew=Pd, P_bubble=Pb)
+            if two:
+                mis = fugacity_mismatch(s, IDs)
+                w.ensure(tag + 'liquid and vapour fugacities of every chemical agree', mis <= FUG_REL_TOL, mismatch=mis, V=V)
+    w.note(P_bubble=Pb, P_dew=Pd)
+
+
+# --------------------------------------------------------------------------- B: vapour fraction specified
+
+def b_single_configs(tier):
+    Ts = (300., 350., 400.) if tier == 'quick' else (285., 300., 325., 350., 375., 400., 425.)
+    out = []
+    for ID in ('Water', 'Ethanol', 'Hexane') if tier == 'quick' else ('Water',) + ALC + HC:
+        for T in Ts:
+            out.append({'name': f'{ID};z0;T={T:g}', 'IDs': [ID], 'z': [1.0], 'T': T})
+    return out
+
+
+def b_V_configs(tier):
+    return b_base_configs(tier) + b_single_configs(tier)
+
+
+@group('C04/B_V', configs=b_V_configs, mode='B',
+       functions=[_VLE + f for f in ('__call__', 'set_PV', 'set_TV', '_set_PV_chemical', '_set_TV_chemical', '_V_err_at_T', '_V_err_at_P')],
+       notes='real solvers; same mixtures / compositions / T grid as C04/B_TP plus single chemicals; the reference point is the T,P flash at '
+             'P = P_dew + theta (P_bubble - P_dew), theta in {0.05, 0.3, 0.6, 0.95}, kept when 2e4 <= P <= 1e6 and 0.02 < V < 0.98; then '
+             'V,P and V,T are specified: |V_result - V| <= 2e-6 (2 V_tol) or T within 1e-7 K (2 T_tol) / P within 1 Pa (P_tol) of the reference')
+def B_V(w, cfg):
+    b_warm()
+    IDs = cfg['IDs']; z = np.array(cfg['z']); T = cfg['T']
+    single = len(IDs) == 1
+    if single:
+        Psat = b_chem(IDs[0]).Psat(T)
+        pts = [(f'V={V:g}', Psat, V) for V in (0.05, 0.5, 0.95)] if 2e4 <= Psat <= 1e6 else []
+    else:
+        Pb, Pd = ref_bubble_dew_P(IDs, z, T)
+        pts = []
+        for t in THETAS:
+            P = Pd + t * (Pb - Pd)
+            if not 2e4 <= P <= 1e6: continue
+            r = b_stream(IDs, z)
+            try:
+                flash(r, T=T, P=P)
+            except NOT_NORMAL:
+                continue
+            V = r.vapor_fraction
+            if 0.02 < V < 0.98:
+                pts.append((f'theta={t:g}', P, V))
+    for n, (label, P, V) in enumerate(pts):
+        for spec in ('PV', 'TV'):
+            s = b_stream(IDs, z, phase='lg'[n % 2])
+            kw = {'V': V, 'P': P} if spec == 'PV' else {'V': V, 'T': T}
+            try:
+                flash(s, **kw)
+            except NOT_NORMAL as e:
+                w.note(**{f'skipped {spec} {label}': repr(e)})
+                continue
+            tag = f'{spec} {label}: '
+            if spec == 'PV':
+                w.ensure(tag + 'P after the flash = specified P', s.P == P, P=s.P, spec=P)
+                near = abs(s.T - T) <= T_RES
+            else:
+                w.ensure(tag + 'T after the flash = specified T', s.T == T, T=s.T, spec=T)
+                near = abs(s.P - P) <= P_RES
+            Vr = s.vapor_fraction
+            w.ensure(tag + 'specified vapour fraction met (within V_tol, or T / P within the solver resolution of the point where it is)',
+                     abs(Vr - V) <= V_TOL or near, V_result=Vr, V=V, T=s.T, P=s.P, T_ref=T, P_ref=P)
+            if not single and 0. < Vr < 1.:
+                mis = fugacity_mismatch(s, IDs)
+                w.ensure(tag + 'the result is an equilibrium state: liquid and vapour fugacities agree', mis <= FUG_REL_TOL, mismatch=mis)
+            if single:
+                w.ensure(tag + 'single chemical: the other variable is the saturation value',
+                         abs(s.T - T) <= 1e-6 * T and abs(s.P - P) <= 1e-6 * P, T=s.T, P=s.P, T_ref=T, Psat=P)
+
+
+# --------------------------------------------------------------------------- B: enthalpy / entropy specified
+
+def b_HS_configs(tier):
+    out = []
+    base = b_base_configs(tier)
+    if tier == 'quick':
+        base = [c for c in base if c['T'] in (300., 400.)]
+    for c in base + b_single_configs(tier):
+        out.append(dict(c, extras={}))
+    # small amounts of non-condensable gas and / or non-volatile solute
+    ex = [({'N2': 0.01}, 'N2'), ({'Glucose': 0.01}, 'Glucose'), ({'N2': 0.005, 'Glucose': 0.01}, 'N2+Glucose')]
+    mixes = [('Methanol', 'Ethanol'), ('Hexane', 'Octane', 'Toluene'), ('Water',)] if tier == 'quick' else \
+        [('Methanol', 'Ethanol'), ALC, ('Hexane', 'Octane', 'Toluene'), HC, ('Water',), ('Ethanol',)]
+    for IDs in mixes:
+        for extras, nm in ex:
+            for T in (320., 380.) if tier == 'quick' else (300., 340., 380., 420.):
+                n = len(IDs)
+                out.append({'name': f"{'+'.join(IDs)}+{nm};z0;T={T:g}", 'IDs': list(IDs), 'z': [1. / n] * n, 'T': T, 'extras': extras})
+    return out
+
+
+def _bracket(IDs, z, extras, fixed, value, var):
+    """All-liquid and all-vapour values of H or S at fixed P (or T): the boundaries of the two-phase range of the specification."""
+    vals = []
+    other = None
+    for V in (0., 1.):
+        s = b_stream(IDs, z, extras=extras)
+        flash(s, **{'V': V, fixed: value})
+        vals.append(getattr(s, var))
+        other = s.T if fixed == 'P' else s.P
+    return vals[0], vals[1]
+
+
+@group('C04/B_HS', configs=b_HS_configs, mode='B',
+       functions=[_VLE + f for f in ('__call__', 'set_PH', 'set_PS', 'set_TH', 'set_TS', '_set_PH_chemical', '_set_PS_chemical',
+                                     '_set_TH_chemical', '_set_TS_chemical', '_H_hat_err_at_T', '_S_hat_err_at_T', '_H_hat_err_at_P', '_S_hat_err_at_P')],
+       notes='real solvers; mixtures / compositions of C04/B_TP, single chemicals, and mixtures with 0.5-1 % N2 (gas-locked) and / or 1 % glucose '
+             '(liquid-locked); P fixed at the reference bubble pressure of the feed at the grid T (kept when 2e4 <= P <= 1e6) resp. T fixed at the '
+             'grid T; H (S) = all-liquid value + theta (all-vapour - all-liquid), theta in {0.05, 0.3, 0.6, 0.95}; reproduced within 1e-6 relative '
+             'to max(|spec|, all-vapour - all-liquid)')
+def B_HS(w, cfg):
+    b_warm()
+    IDs = cfg['IDs']; z = np.array(cfg['z']); T = cfg['T']; extras = cfg.get('extras') or {}
+    if len(IDs) == 1:
+        P = b_chem(IDs[0]).Psat(T)
+    else:
+        P, _ = ref_bubble_dew_P(IDs, z, T)
+    if not 2e4 <= P <= 1e6:
+        return
+    for fixed, value in (('P', P), ('T', T)):
+        for var in ('H', 'S'):
+            try:
+                lo, hi = _bracket(IDs, z, extras, fixed, value, var)
+            except NOT_NORMAL as e:
+                w.note(**{f'no bracket {fixed}{var}': repr(e)})
+                continue
+            span = hi - lo
+            w.ensure(f'{fixed}{var}: all-vapour {var} above all-liquid {var}', span > 0., lo=lo, hi=hi)
+            for n, t in enumerate(THETAS):
+                X = lo + t * span
+                s = b_stream(IDs, z, extras=extras, phase='lg'[n % 2])
+                try:
+                    flash(s, **{fixed: value, var: X})
+                except NOT_NORMAL as e:
+                    w.note(**{f'skipped {fixed}{var} theta={t:g}': repr(e)})
+                    continue
+                tag = f'{fixed}{var} theta={t:g}: '
+                w.ensure(tag + f'{fixed} after the flash = specified {fixed}', getattr(s, fixed) == value, got=getattr(s, fixed), spec=value)
+                got = getattr(s, var)
+                scale = max(abs(X), abs(span))
+                w.ensure(tag + f'specified {var} reproduced by the resulting stream', abs(got - X) <= H_REL_TOL * scale,
+                         got=got, spec=X, rel=(got - X) / scale, T=s.T, P=s.P, V=s.vapor_fraction)
+
+
+# --------------------------------------------------------------------------- B: ideal package vs independent Raoult's-law Rachford-Rice
+
+def raoult_flash(Psats, z, P):
+    """Independent flash: K_i = Psat_i / P, Rachford-Rice solved with scipy's brentq.  Returns the vapour fraction and y, x."""
+    from scipy.optimize import brentq
+    z = np.asarray(z, float); K = np.asarray(Psats, float) / P
+    if (z * K).sum() <= 1.: return 0., z * K / (z * K).sum(), z
+    if (z / K).sum() <= 1.: return 1., z, (z / K) / (z / K).sum()
+    f = lambda V: (z * (K - 1.) / (1. + V * (K - 1.))).sum()
+    V = brentq(f, 0., 1., xtol=1e-15, rtol=8.9e-16, maxiter=500)
+    x = z / (1. + V * (K - 1.))
+    return V, K * x, x
+
+
+def b_ideal_configs(tier):
+    out = []
+    sets = list(IDEAL_SETS) + [ALC, HC]
+    if tier == 'quick':
+        sets = sets[:4] + [HC]
+    for IDs in sets:
+        n = len(IDs)
+        comps = [[1. / n] * n] + ([[0.02] * (n - 1) + [1. - 0.02 * (n - 1)], [1. - 0.02 * (n - 1)] + [0.02] * (n - 1)] if tier != 'quick' or n <= 3 else [])
+        for ci, z in enumerate(comps):
+            for T in (300., 350., 400., 440.) if tier == 'quick' else T_GRID_THOROUGH:
+                out.append({'name': f"ideal {'+'.join(IDs)};z{ci};T={T:g}", 'IDs': list(IDs), 'z': z, 'T': T})
+    return out
+
+
+@group('C04/B_ideal_raoult', configs=b_ideal_configs, mode='B',
+       functions=[_VLE + '__call__', _VLE + 'set_thermal_condition', _VLE + 'set_PV', _VLE + '_solve_v_fixed_point',
+                  'thermosteam.equilibrium.binary_phase_fraction:solve_phase_fraction_Rashford_Rice'],
+       notes='real solvers, ideal property package (thermo.ideal()): water with organics and the two families; equimolar and corner compositions; '
+             'T grid; P = P_dew + theta (P_bubble - P_dew) of Raoult\'s law, theta in {0.05, 0.3, 0.6, 0.95}, 2e4 <= P <= 1e6; vapour flows vs an '
+             'independent Rachford-Rice solution (scipy brentq) within 1e-6 of the feed; V,P specification: T reproduces V in the independent flash')
+def B_ideal_raoult(w, cfg):
+    b_warm()
+    IDs = cfg['IDs']; z = np.array(cfg['z']); T = cfg['T']
+    Psats = np.array([b_chem(i).Psat(T) for i in IDs])
+    Pb = float((z * Psats).sum()); Pd = float(1. / (z / Psats).sum())
+    F = 100.
+    for n, t in enumerate(THETAS):
+        P = Pd + t * (Pb - Pd)
+        if not 2e4 <= P <= 1e6:
+            continue
+        V_ref, y_ref, x_ref = raoult_flash(Psats, z, P)
+        s = b_stream(IDs, z, F=F, ideal=True, phase='lg'[n % 2])
+        try:
+            flash(s, T=T, P=P)
+        except NOT_NORMAL as e:
+            w.note(**{f'skipped theta={t:g}': repr(e)})
+            continue
+        tag = f'theta={t:g}: '
+        v = s.imol['g', IDs]; l = s.imol['l', IDs]
+        err = float(np.abs(v - F * V_ref * y_ref).max() / F)
+        w.ensure(tag + 'vapour flows agree with the independent Raoult / Rachford-Rice solution', err <= RAOULT_TOL, err=err, V=s.vapor_fraction, V_ref=V_ref)
+        err_l = float(np.abs(l - F * (1. - V_ref) * x_ref).max() / F)
+        w.ensure(tag + 'liquid flows agree with the independent Raoult / Rachford-Rice solution', err_l <= RAOULT_TOL, err=err_l)
+        w.ensure(tag + 'T, P after the flash = specified T, P', s.T == T and s.P == P)
+        if 0.02 < V_ref < 0.98:
+            s2 = b_stream(IDs, z, F=F, ideal=True)
+            try:
+                flash(s2, V=V_ref, P=P)
+            except NOT_NORMAL:
+                continue
+            V2, _, _ = raoult_flash([b_chem(i).Psat(s2.T) for i in IDs], z, P)
+            w.ensure(tag + 'V,P specified: the independent flash at the returned T has the specified vapour fraction',
+                     abs(V2 - V_ref) <= V_TOL or abs(s2.T - T) <= T_RES, V_at_T=V2, V=V_ref, T=s2.T, T_ref=T)
+
+
+# --------------------------------------------------------------------------- B: scaling
+
+def b_scaling_configs(tier):
+    out = []
+    base = [c for c in b_base_configs(tier) if c['name'].endswith(';z0;T=350') or c['name'].endswith(';z1;T=400')]
+    for c in base:
+        out.append(dict(c, extras={}))
+    for IDs, extras in ((('Methanol', 'Ethanol'), {'N2': 0.01}), (('Hexane', 'Octane', 'Toluene'), {'Glucose': 0.01}), (('Water',), {}),
+                        (('Ethanol',), {'N2': 0.005, 'Glucose': 0.01})):
+        n = len(IDs)
+        out.append({'name': f"{'+'.join(IDs)}+{'+'.join(extras) or 'none'};z0;T=350", 'IDs': list(IDs), 'z': [1. / n] * n, 'T': 350., 'extras': extras})
+    return out
+
+
+@group('C04/B_scaling', configs=b_scaling_configs, mode='B',
+       functions=[_VLE + '__call__', _VLE + '_setup', _VLE + 'set_thermal_condition', _VLE + 'set_PV', _VLE + 'set_PH', 'thermosteam.equilibrium.vle:set_flows'],
+       notes='real solvers; feed of 100 mol/hr vs the same feed times k in {1e-3, 7.3, 1e3}; specifications (T,P), (V,P), (H,P) with H scaled by k; '
+             'every product flow / k within 1e-7 of the feed total of the unscaled result, T and P within 1e-7 relative')
+def B_scaling(w, cfg):
+    b_warm()
+    IDs = cfg['IDs']; z = np.array(cfg['z']); T = cfg['T']; extras = cfg.get('extras') or {}
+    if len(IDs) == 1:
+        P = b_chem(IDs[0]).Psat(T) * (1.2 if extras else 1.0)
+    else:
+        Pb, Pd = ref_bubble_dew_P(IDs, z, T)
+        P = Pd + 0.5 * (Pb - Pd)
+    if not 2e4 <= P <= 1e6:
+        return
+    F = 100.
+    all_IDs = list(IDs) + list(extras)
+
+    def run(k, spec, H=None):
+        s = b_stream(IDs, z, F=F * k, extras=extras)
+        if spec == 'TP': flash(s, T=T, P=P)
+        elif spec == 'PV': flash(s, V=0.4, P=P)
+        else: flash(s, H=H * k, P=P)
+        return s
+
+    for spec in ('TP', 'PV', 'PH'):
+        try:
+            H = None
+            if spec == 'PH':
+                r = b_stream(IDs, z, F=F, extras=extras); flash(r, V=0.4, P=P); H = r.H
+            base = run(1., spec, H)
+        except NOT_NORMAL as e:
+            w.note(**{f'skipped {spec}': repr(e)})
+            continue
+        g0 = base.imol['g', all_IDs]; l0 = base.imol['l', all_IDs]
+        for k in (1e-3, 7.3, 1e3):
+            try:
+                s = run(k, spec, H)
+            except NOT_NORMAL as e:
+                w.note(**{f'skipped {spec} k={k:g}': repr(e)})
+                continue
+            err = float(max(np.abs(s.imol['g', all_IDs] / k - g0).max(), np.abs(s.imol['l', all_IDs] / k - l0).max()) / F)
+            w.ensure(f'{spec} k={k:g}: all product flows are k times those of the unscaled feed', err <= SCALE_TOL, err=err,
+                     V=s.vapor_fraction, V0=base.vapor_fraction)
+            w.ensure(f'{spec} k={k:g}: T and P agree with the unscaled result',
+                     abs(s.T - base.T) <= 1e-7 * base.T and abs(s.P - base.P) <= 1e-7 * base.P, T=s.T, T0=base.T, P=s.P, P0=base.P)
+
+
+# --------------------------------------------------------------------------- B: the N-component Rachford-Rice solver
+
+def b_rr_configs(tier):
+    out = []
+    rng_sets = {
+        2: [[3.0, 0.2], [1.5, 0.9], [1.001, 0.5], [40., 0.01]],
+        3: [[3.0, 1.2, 0.2], [1.5, 0.9, 0.8], [100., 1.0001, 1e-3]],
+        5: [[8.0, 3.0, 1.2, 0.5, 0.1], [1.2, 1.1, 0.95, 0.9, 0.85]],
+    }
+    for n, Ksets in rng_sets.items():
+        for ki, Ks in enumerate(Ksets):
+            for ci, z in enumerate(b_compositions(n, 'quick')):
+                for za, zb in ((0., 0.), (0.05, 0.), (0., 0.05), (0.02, 0.03)):
+                    if n == 2 and za == 0. and zb == 0.:
+                        continue       # that case is the closed form (C04/rachford_rice_2N)
+                    out.append({'name': f'N={n};K{ki};z{ci};light={za:g};heavy={zb:g}', 'Ks': Ks, 'z': z, 'za': za, 'zb': zb})
+    return out
+
+
+@group('C04/B_rr_solve', configs=b_rr_configs, mode='B',
+       functions=['thermosteam.equilibrium.binary_phase_fraction:solve_phase_fraction_Rashford_Rice',
+                  'thermosteam.equilibrium.binary_phase_fraction:phase_fraction_objective_function'],
+       notes='real flexsolve root finder; 2, 3, 5 partitioning components with fixed K sets (wide, narrow, near-1), 3-4 compositions, '
+             'light / heavy non-partitioning fractions in {0, 0.02-0.05}; z scaled to sum 1 - light - heavy; guess 0.5')
+def B_rr_solve(w, cfg):
+    from scipy.optimize import brentq
+    Ks = np.array(cfg['Ks'], float); za = cfg['za']; zb = cfg['zb']
+    z = np.array(cfg['z'], float) * (1. - za - zb)
+    z0 = z.copy(); K0 = Ks.copy()
+    phi = binary_mod.solve_phase_fraction_Rashford_Rice(z, Ks, 0.5, za, zb)
+    f = lambda V: float((-z0 * (K0 - 1.) / (1. + V * (K0 - 1.))).sum() - (za / V if za else 0.) + (zb / (1. - V) if zb else 0.))
+    w.ensure('result is a fraction in [0, 1]', 0. <= phi <= 1., phi=phi)
+    lo = 1e-15 if za else 0.; hi = 1. - 1e-15 if zb else 1.
+    if f(lo) < 0. < f(hi):
+        ref = brentq(f, lo, hi, xtol=1e-15, rtol=8.9e-16)
+        w.ensure('a root of the Rachford-Rice residual exists in (0, 1): the result is that root', abs(phi - ref) <= 1e-9, phi=phi, ref=ref, residual=f(min(max(phi, lo), hi)))
+    elif f(lo) >= 0.:
+        w.ensure('no vapour can form (residual >= 0 at 0): result 0', phi == 0., phi=phi)
+    else:
+        w.ensure('no liquid can remain (residual <= 0 at 1): result 1', phi == 1., phi=phi)
+    w.ensure('frame: arguments unchanged', bool((z == z0).all() and (Ks == K0).all()))
